@@ -77,6 +77,12 @@ CHECKS["C13"] = dict(
     text="For every small instance, beam width 2..#starts, select_best on/off and batch sizes 1-3 the returned beams must equal a reference beam search over the COMPLETE scored tree of the policy, be feasible paths of the tree with exactly the tree's per-step log-probs, be distinct when their forced starts are, and best-selection must return the maximum-reward beam; ties at the selection boundary are skipped and counted.",
     ref="DESIGN.md section 4 C13",
 )
+CHECKS["C14"] = dict(
+    engine="E2 ProductExplorer",
+    technique="lock-step product over ALL ordered batch arrangements (size 1-3, duplicates, multi-start factorisations) of stackable alphabet instances; solo decode is the reference",
+    text="Every instance is decoded greedily alone and in every ordered sub-batch of size 2 and 3 (plus duplicates, plus (batch, num_starts) factorisations) by every bundled constructive policy on every environment it supports; actions, reward and log-likelihood must agree, float ties at the first differing step are skipped and counted; inference-time randomness is owned by the RNG seam (row-keyed answers).",
+    ref="DESIGN.md section 4 C14",
+)
 
 NOT_YET = {}
 
